@@ -94,11 +94,10 @@ theorem maskSum_rev (ms : List Nat) (w : List Int → α) :
     maskSum (fieldOps sqrt lt eps) ms (rev ms w) = maskSum (fieldOps sqrt lt eps) ms w := by
   unfold maskSum; exact boxSum_rev sqrt lt eps ms w
 
-/-- standardising the stored (reversed) template under the stored mask = reversal of the standardised template -/
-theorem normTemplate_rev (ms : List Nat) (g w : List Int → α) (n : α) :
-    normTemplate (fieldOps sqrt lt eps) ms (rev ms g) (rev ms w) n
-      = rev ms (normTemplate (fieldOps sqrt lt eps) ms g w n) := by
-  unfold normTemplate
+/-- the template statistics are reflection invariant -/
+theorem normStats_rev (ms : List Nat) (g w : List Int → α) (n : α) :
+    normStats (fieldOps sqrt lt eps) ms (rev ms g) (rev ms w) n = normStats (fieldOps sqrt lt eps) ms g w n := by
+  unfold normStats
   have e1 : (fun k => (fieldOps sqrt lt eps).mul (rev ms g (natsToInts k)) (rev ms w (natsToInts k)))
       = fun k => rev ms (fun x => (fieldOps sqrt lt eps).mul (g x) (w x)) (natsToInts k) := by
     funext k; exact congrFun (rev_map2 ms _ g w) _
@@ -107,15 +106,35 @@ theorem normTemplate_rev (ms : List Nat) (g w : List Int → α) (n : α) :
     funext k
     exact congrFun (rev_map2 ms (fun a b => (fieldOps sqrt lt eps).mul ((fieldOps sqrt lt eps).sq a) b) g w) _
   simp only [e1, e2, boxSum_rev]
+
+/-- standardising the stored (reversed) template under the stored mask = reversal of the standardised template -/
+theorem normTemplate_rev (ms : List Nat) (g w : List Int → α) (n : α) :
+    normTemplate (fieldOps sqrt lt eps) ms (rev ms g) (rev ms w) n
+      = rev ms (normTemplate (fieldOps sqrt lt eps) ms g w n) := by
+  unfold normTemplate
+  rw [normStats_rev]
   funext x
   simp only [rev]
   split <;> rfl
+
+/-- the closure the score formulas use *is* `normTemplate` -/
+theorem normT_eq (o : Ops α) (ms : List Nat) (g w : List Int → α) (n : α) :
+    normT o (normStats o ms g w n) g w = normTemplate o ms g w n := rfl
+
+theorem normT_rev (o : Ops α) (st : α × α) (ms : List Nat) (g w : List Int → α) :
+    normT o st (rev ms g) (rev ms w) = rev ms (normT o st g w) := by
+  funext x; simp only [normT, rev]; split <;> rfl
+
+theorem supp_normT (st : α × α) (ms : List Nat) (g w : List Int → α) (hw : ∀ j, OutOfBox ms j → w j = 0) :
+    ∀ j, OutOfBox ms j → normT (fieldOps sqrt lt eps) st g w j = 0 := by
+  intro j hj
+  simp only [normT, normApply, fieldOps, hw j hj, mul_zero]
 
 /-- the standardised template vanishes wherever the mask does -/
 theorem supp_normTemplate (ms : List Nat) (g w : List Int → α) (n : α) (hw : ∀ j, OutOfBox ms j → w j = 0) :
     ∀ j, OutOfBox ms j → normTemplate (fieldOps sqrt lt eps) ms g w n j = 0 := by
   intro j hj
-  simp only [normTemplate, fieldOps, hw j hj, mul_zero]
+  simp only [normTemplate, normApply, fieldOps, hw j hj, mul_zero]
 end
 
 end Pm.C01
